@@ -6,8 +6,9 @@ One target per (scenario group x role under attack); the structured input select
 (lane, flags, cut point, chunking seed) and carries the payload (raw bytes, or plaintext records
 that the harness protects under the keys the target currently expects).  Oracles: the sanitizers,
 libFuzzer's timeout / rss watchdogs, and the API-boundary oracle of the harness
-("C08-ORACLE: c08:<what>": undocumented return codes, buffers beyond SSL_MAX_BUF_SIZE, unbounded
-ReceivedData/ProcessedData loops).
+("C08-ORACLE: c08:<what>": undocumented return codes, I/O buffers beyond SSL_MAX_BUF_SIZE or with a
+negative / oversized fill level, handshake reassembly buffers beyond 64 KiB, application data or alerts
+reported outside the input buffer, unbounded ReceivedData/ProcessedData loops).
 
 Phases
   1. replay: every committed seed of every target (corpus/c08/<target>/) is executed once
@@ -19,7 +20,8 @@ Phases
      next seed (bounded number of restarts).
   3. thorough only: a bounded number of files of the resulting corpora is replayed under valgrind
      memcheck on a standalone runner built from the same source against the `prod` variant
-     (uninitialised reads are invisible to ASan).
+     (uninitialised reads are invisible to ASan), and the DTLS / TLS 1.3 corpora once more under ASan
+     with detect_stack_use_after_return=1.
 
 --replay: the replay file's "replay" field is "<target>:<input path>" ("vg/<target>:<path>" for a
 memcheck finding).
